@@ -145,12 +145,14 @@ static void run_case(int k, const std::string & head, const std::string & body)
          const int sid = atoi(ops[oi].substr(0, gt).c_str());
          std::vector<std::string> cmds = Split(ops[oi].substr(gt+1), '&');
          std::string verbs;
-         if ((sid < 0)||(sid >= N)||(!w.alive(sid))) {out << k << " " << stepNo << " skipped\n"; continue;}
+         if ((sid < 0)||(sid >= N)) {fprintf(stderr, "bad session in [%s]\n", ops[oi].c_str()); exit(2);}
+         if (!w.alive(sid)) cmds.clear();   // a detached session's client sends nothing any more
 
          IdxSession & S = w.session(sid);
          ClientView & V = cx.views[sid];
          std::vector<MessageRef> msgs;
-         bool api = false, pureGet = true;
+         bool api = false, pureGet = true, detach = false;
+         if (cmds.empty()) pureGet = false;
          std::vector<std::string> getPats;
          for (size_t ci=0; ci<cmds.size(); ci++)
          {
@@ -216,11 +218,34 @@ static void run_case(int k, const std::string & head, const std::string & body)
                SetDataNodeFlags fl; if (a[3] == "1") fl.SetBit(SETDATANODE_FLAG_ADDTOINDEX);
                if (src) (void) S.CloneDataNodeSubtree(*src, a[2].c_str(), fl, before_str(a[4]).c_str());
             }
+            else if (v == "xsr")
+            {
+               api = true;
+               std::vector<std::string> sp = Split(a[1], '/');
+               const int owner = atoi(sp[0].c_str());
+               std::string rel; for (size_t i=1; i<sp.size(); i++) {if (i > 1) rel += "/"; rel += sp[i];}
+               DataNode * src = ((owner >= 0)&&(owner < N)&&(w.alive(owner))) ? w.session(owner).GetDataNode(rel.c_str()) : NULL;
+               SetDataNodeFlags fl; if (a[3] == "1") fl.SetBit(SETDATANODE_FLAG_ADDTOINDEX);
+               if (src)
+               {
+                  Message saved;
+                  if (S.SaveNodeTreeToMessage(saved, src, "", true).IsOK()) (void) S.RestoreNodeTreeFromMessage(saved, a[2].c_str(), true, fl);
+               }
+            }
+            else if (v == "xra")
+            {
+               api = true;
+               DataNode * nd = S.GetDataNode(a[1].c_str());
+               if (nd) (void) nd->RemoveIndexEntryAt((uint32) atoi(a[2].c_str()), &S);
+            }
+            else if (v == "dt") {w.CloseClient(sid); detach = true;}
             else if (v == "xmv") {api = true; (void) S.MoveIndexEntries(a[1].c_str(), before_str(a[2]).c_str());}
             else if (v == "xrm") {api = true; (void) S.RemoveDataNodes(a[1].c_str());}
             else {fprintf(stderr, "bad cmd [%s]\n", cmds[ci].c_str()); exit(2);}
          }
-         if (api) S.PushSubscriptionMessages();
+         if (detach) {(void) w.Pump(); cx.views[sid].subs.clear(); cx.views[sid].replica.clear();}
+         else if (api) S.PushSubscriptionMessages();
+         else if (msgs.empty()) {/* nothing to send */}
          else if (msgs.size() == 1) w.client(sid).Send(msgs[0]);
          else if (!nest) w.client(sid).Send(MkBatch(msgs));
          else
